@@ -325,6 +325,19 @@ def enclosing_loop(node: ast.AST) -> Optional[ast.AST]:
     return None
 
 
+def loop_exits(loop: ast.AST) -> list[ast.stmt]:
+    """Statements that leave ``loop`` or cut one of ITS iterations short: ``return`` anywhere in
+    its body, ``break`` / ``continue`` that belong to this loop (not to a loop nested in it)."""
+    out = []
+    for n in walk_ordered(loop):
+        if isinstance(n, ast.Return):
+            out.append(n)
+        elif isinstance(n, (ast.Break, ast.Continue)) and enclosing_loop(n) is loop:
+            # a break in the loop's own else-clause belongs to an outer loop
+            out.append(n)
+    return out
+
+
 def contains(outer: ast.AST, inner: ast.AST) -> bool:
     if outer is inner:
         return True
